@@ -20,6 +20,10 @@ def null_switches(m):
             c = sym_strip(c[2])
         if isinstance(c, tuple) and c[0] == "call" and isinstance(c[1], str) and ISNULL_RE.search(c[1]):
             out[bid] = (c[2][0], neg)
+        # `match NonNull::new(p) { Some(..) => .., None => .. }`: NonNull::new is None exactly for a null pointer, so the discriminant (None = 0, Some = 1)
+        # is the negated null test of p
+        if not neg and isinstance(c, tuple) and c[0] == "discr" and isinstance(c[1], tuple) and c[1][0] == "call" and str(c[1][1]).endswith("ptr::non_null::NonNull::new") and c[1][2]:
+            out[bid] = (c[1][2][0], True)
     return out
 
 
@@ -168,7 +172,12 @@ def run(ck, facts):
                     v = sym_strip(v)
                     while isinstance(v, tuple) and v[0] == "cast":
                         v = sym_strip(v[2])
-                    if isinstance(v, tuple) and v[0] == "call" and str(v[1]).endswith("NonNull::as_ptr"):
+                    inner_ = sym_strip(v[2][0]) if isinstance(v, tuple) and v[0] == "call" and str(v[1]).endswith("NonNull::as_ptr") and v[2] else None
+                    if inner_ is not None and not (isinstance(inner_, tuple) and inner_[0] == "call" and str(inner_[1]).endswith("NonNull::dangling")):
+                        # as_ptr of a NonNull that is not the dangling one (the payload of `NonNull::new(raw)`): the real pointer
+                        kinds.add("real")
+                        okd &= guarded_by(m, dbb, lambda s: True, want_null=False)
+                    elif isinstance(v, tuple) and v[0] == "call" and str(v[1]).endswith("NonNull::as_ptr"):
                         kinds.add("dangling")
                         okd &= guarded_by(m, dbb, lambda s: True, want_null=True)
                     else:
